@@ -216,6 +216,36 @@ def run(prog: Program, chk: Check):
                 universal = True
             if isinstance(n, ast.Raise) and n.exc is not None and "NotImplementedError" in norm(n.exc):
                 universal = True
+        # no way around the element-wise decision: every normal exit passed a universally quantified test over the whole
+        # argument (or a delegation / the frozen bytes exemption: a bytes object can only hold 0..255)
+        def quantified(n, p=p):
+            a_ = n.ast
+            if a_ is None or n.kind not in ("test", "stmt", "for"):
+                return False
+            if n.kind == "for":
+                return path_of(a_.iter) == p
+            for c in calls_in(a_):
+                if isinstance(c.func, ast.Name) and c.func.id in ("any", "all") and c.args and isinstance(c.args[0], (ast.GeneratorExp, ast.ListComp)):
+                    ge = c.args[0]
+                    if len(ge.generators) == 1 and path_of(ge.generators[0].iter) == p and not ge.generators[0].ifs:
+                        return True
+                if isinstance(c.func, ast.Attribute) and c.func.attr == "validate_many" and c.args and path_of(c.args[0]) == p:
+                    return True
+            return isinstance(a_, ast.Raise)
+        qn = [n for n in g.nodes if quantified(n)]
+        if qn:
+            qids = {n.id for n in qn}
+            gsq = flow.guard_states(g, edge_filter=lambda e: not (e.src in qids and e.kind != "exc"))
+            skipping = []
+            for e in g.pred[g.exit.id]:
+                if e.kind in ("exc", "except") or e.src in qids:
+                    continue
+                for pth in gsq.after_edge(e):
+                    if guards.satisfiable(pth) and not guards.implies(pth, guards.parse(f"isinstance({p}, (bytes, bytearray))")):
+                        skipping.append(pth)
+            Q.decide(not skipping, fkey(f, "no-way-around-the-scan"), where(f), "every normal exit passed the element-wise test (bytes objects excepted)",
+                     f"{f.qual} can return normally without examining the elements (a fast path skips the scan); guards on that path: "
+                     + (", ".join(("" if pol else "not ") + norm(x) for x, pol in skipping[0]) if skipping else ""))
         if stats:
             checks = [n for n in g.nodes if all_int_check(n)]
             # the check must raise on its true branch and dominate every order statistic
